@@ -318,7 +318,7 @@ fn alpha_ls(cfg: &Cfg) -> Vec<Op> {
     v
 }
 
-static LS: LockStep = LockStep { property: "C16", probes: true, seed: None, via_feed: false };
+static LS: LockStep = LockStep { property: "C16", probes: true, seed: None, via_feed: false, merged: false };
 /// the core of the excursions over a small alphabet, much deeper: what one visit leaves
 /// behind on the alternate screen (wrap marks, wiped rows, regions, pens) must not be there
 /// on the next one, and nothing of it on the primary
@@ -358,7 +358,7 @@ fn core_part(tier: Tier) -> Part<'static, Sys> {
     }
 }
 
-static LS_REGIONS: LockStep = LockStep { property: "C16", probes: false, seed: None, via_feed: false };
+static LS_REGIONS: LockStep = LockStep { property: "C16", probes: false, seed: None, via_feed: false, merged: false };
 
 /// excursions from and into screens with scroll regions and origin mode: what the program
 /// on the alternate screen does to the margins must not bend the cursor that 1049 restores
@@ -435,7 +435,7 @@ macro_rules! parts {
     }};
 }
 
-static SYS_MODES: LockStep = LockStep { property: "C16", probes: false, seed: None, via_feed: false };
+static SYS_MODES: LockStep = LockStep { property: "C16", probes: false, seed: None, via_feed: false, merged: false };
 
 pub fn run(ctx: &Ctx) -> Report {
     let mut rep = Report::new();
